@@ -6,11 +6,17 @@
    is the body with each #n replaced by the n-th actual argument, in order;
    argument tokens are inserted unchanged (text and position: C02), all other
    tokens are pinned inside the use (C04); an undeclared name (a use before
-   its definition) is not expanded.  Not proved: the parsing of the
-   definition commands and of the actual arguments, and the independence of
+   its definition) is not expanded.  The actual arguments
+   (C09_braced_call): a macro declared with n mandatory arguments and called
+   with n braced groups collects exactly the contents of the groups, in
+   order, goes on behind the last closing brace and leaves the parser state
+   alone; its expansion is the body with #k replaced by the k-th group.
+   Not proved: the parsing of the
+   definition commands, optional and unbraced arguments, and the independence of
    the source of the definitions; these are compared with the
    implementation by the correspondence run on the C09 stream. *)
-From YV Require Import PyBase Token PState Parser Expand ExpandSites.
+From Coq Require Import String.
+From YV Require Import PyBase Token Scanner PState Parser Expand ExpandSites ExecArgs ArgSites Catalogue.
 Open Scope Z_scope.
 
 (* (1) substitution: without the action tokens that only mark boundaries,
@@ -44,6 +50,36 @@ Proof. exact expand_macro_undeclared. Qed.
 Print Assumptions C09_use_before_definition.
 
 (* body `a#1b#1` with argument `XY` standing at 10, 11; use at 5 *)
+(* (4) the actual arguments of a call with braced groups *)
+Theorem C09_braced_call : forall T rd rec fuel st buf rest mac start gs body st' ins rest',
+  m_args mac = repeat AMand (length gs) -> m_extract mac = [] -> m_repl mac = RToks body ->
+  groups gs buf rest ->
+  expand_arguments T rd rec fuel st buf mac start = Ok (st', (ins, rest')) ->
+  st' = st /\ rest' = rest /\
+  map shape (noact ins) = map shape (noact (subst_body gs body)).
+Proof. exact expand_braced_call_subst. Qed.
+Print Assumptions C09_braced_call.
+
+Theorem C09_groups_collected : forall T gs st buf rest n mac p,
+  groups gs buf rest ->
+  collect_args T st buf (repeat AMand (length gs)) n mac p = (st, gs, gs, rest).
+Proof. exact collect_groups. Qed.
+Print Assumptions C09_groups_collected.
+
+(* on the scan of "{ab}{c} d" with the body  <#2|#1>  *)
+Example C09_braced_call_example :
+  let toks := fst (scan (t_scan py_tables) (s2l "{ab}{c} d")) in
+  let h1 := mk (KArg 1) 0 (s2l "#1") false in let h2 := mk (KArg 2) 0 (s2l "#2") false in
+  let body := [TextT 0 (s2l "<"); h2; TextT 0 (s2l "|"); h1; TextT 0 (s2l ">")] in
+  let mac := {| m_name := s2l "\m"; m_args := [AMand; AMand]; m_repl := RToks body;
+                m_defaults := []; m_extract := [] |} in
+  match expand_arguments py_tables (fun _ => None) (fun _ _ => Fatal 0) 0
+          (Exec.init_state py_tables (s2l "en") false false true) toks mac 99 with
+  | Ok (_, (ins, rest)) => Some (flat_map txt (noact ins), flat_map txt rest)
+  | _ => None end
+  = Some (s2l "<c|ab>", s2l " d").
+Proof. vm_compute. reflexivity. Qed.
+
 Example C09_nonvacuous :
   let X := mk KText 10 [88]%N false in let Y := mk KText 11 [89]%N false in
   let a := mk KText 0 [97]%N false in let b := mk KText 0 [98]%N false in
